@@ -76,6 +76,20 @@ def generate(rng, tier, cls):
     scn = {'actors': [prod], 'schedule': [], 'faults': [],
            'block_size': bs, 'stream': kind, 'buf': buf}
 
+    if cls == 'cuts_foreign' and rng.chance(0.02):
+        # a dump-like diff of several hundred KiB in fixed-length lines
+        # (power-of-two line lengths: line ends fall on every power-of-two
+        # boundary of the content), cut at a grid of points
+        ln = rng.choice([16, 32, 64, 128, 100])
+        scn['actors'] = [{'id': 'P1', 'kind': 'raw', 'file': 'f1',
+                          'blocks': {'line': ln,
+                                     'count': rng.choice([140000, 270000,
+                                                          400000]) // ln,
+                                     'tail': rng.choice([0, 5, 17]),
+                                     'crlf': rng.chance(0.2)}}]
+        scn['block_size'] = None
+        scn['stream'] = rng.choice(['sim', 'bytesio'])
+
     if cls.startswith('cuts'):
         scn['cuts'] = {'mode': 'all'}
     elif cls == 'crash':
@@ -147,7 +161,8 @@ def content_of(rec):
 
 
 def judge(out, tag, R_full, recs, end, exc, L, ctx, allow_length_on=None,
-          data_end_section=None, spans=None, cut=None, swallow=None):
+          data_end_section=None, spans=None, cut=None, swallow=None,
+          tail=None):
     """Compare a faulty run with the intact records.  Returns outcome
     class (str)."""
     n = len(recs)
@@ -219,9 +234,14 @@ def judge(out, tag, R_full, recs, end, exc, L, ctx, allow_length_on=None,
             nlk = w.get('_nl_text') if isinstance(gv, str) \
                 else w.get('_nl_bytes')
 
+            # ... and the bytes present end right after a line ending of the
+            # section (only then is what the reader got newline-terminated)
             if cut is not None and data_end_section == i and \
                len(gv) < len(cv) and cv.startswith(gv) and \
-               nlk and gv.endswith(nlk):
+               nlk and gv.endswith(nlk) and \
+               (tail is None or
+                (tail.rstrip(b' ') if (w.get('options') or {}).get('indent')
+                 else tail).endswith(w.get('_nl_bytes') or b'\n')):
                 out.violate('C07.altered-record',
                             'cut-inside-content:short-content-yielded', info)
                 return 'known-short'
@@ -329,7 +349,8 @@ def execute(scn, L):
                 sec = i
 
         cls = judge(out, tag, R_full, recs, e, x, L, ctx, cut=k,
-                    data_end_section=sec, spans=spans)
+                    data_end_section=sec, spans=spans,
+                    tail=intact[max(0, k - 400):k])
         st, pc = position_class(k, spans, ref, len(intact))
 
         if 0 < k < len(intact) and intact[k - 1:k] == b'\n' and \
@@ -353,7 +374,11 @@ def execute(scn, L):
             # and a regular grid in between (not a complete sweep)
             ks = set(range(0, len(intact) + 1, max(1, len(intact) // 400)))
 
-            for hs, he, ce in spans:
+            # (bounded work per file: with very many sections, the boundaries
+            # of an evenly spaced subset of them)
+            step = max(1, -(-len(spans) // 60))
+
+            for hs, he, ce in spans[::step]:
                 for b in (hs, he, ce):
                     ks.update(range(max(0, b - 3), min(len(intact), b + 3)
                                     + 1))
@@ -516,7 +541,8 @@ def execute(scn, L):
                 sec = i
 
         cls = judge(out, 'overtake', R_full, ra.records, ra.end, ra.exc, L,
-                    ctx, cut=k, data_end_section=sec, spans=spans)
+                    ctx, cut=k, data_end_section=sec, spans=spans,
+                    tail=intact[max(0, k - 400):k])
         out.faults['overtake'] = out.faults.get('overtake', 0) + \
             (1 if k < len(intact) else 0)
         out.states.add('overtake|%s' % cls)
